@@ -385,6 +385,8 @@ ALLOW = {
     'messages::bitfield::Bitfield::from_vec/': 'constant shifts bounded by chunks(8)',
     'session::Session::spawn_peer_listener': 'no panic site expected',
     'session::Session::unchoked_num': 'no panic site expected',
+    'peer::Peer::new/alloc/': 'vec![false; pieces_num]: pieces_num = number of hashes of an already parsed torrent (bounded by the torrent file size / 20)',
+    'session::Session::choose_piece_index::{closure#0}/alloc/': 'vec![0; pieces_num]: same bound',
 }
 
 KNOWN_PANICS = ('Piece downloaded but not requested', 'Piece cancelled but not requested')
